@@ -143,7 +143,9 @@ def seeded(patterns):
         d = os.path.join(sdir, name)
         if not os.path.isfile(os.path.join(d, "patch.diff")):
             continue
-        prop = json.load(open(os.path.join(d, "meta.json"))).get("property", name[:3])
+        meta = json.load(open(os.path.join(d, "meta.json")))
+        # "check": the check that reports it where that is not the property's own (see check_result in the meta file)
+        prop = meta.get("check") or meta.get("property", name[:3])
         p = subprocess.run([os.path.join(E.VERIF, "tools", "with_mutant.sh"), os.path.join(d, "patch.diff"),
                             os.path.join(E.VERIF, "vcheck"), prop, "quick"], capture_output=True, text=True, timeout=3600)
         hit = [l for l in p.stdout.splitlines() if l.startswith("VIOLATION property=")]
